@@ -46,6 +46,15 @@ CLAIMS = {
              "checksum mismatch. Guards are facts about all paths; corruption offsets cannot be enumerated by tests.",
         technique="MIR guard/dominance analysis (edge-conditions dominating a site), value provenance through iterator chains, controlling-switch classification",
         ref="DESIGN.md §3 C10"),
+    "C04": dict(
+        text="Decides structural clauses of C04 on the pre-lowering coroutine MIR of the connection handler: R04.1 frames consumed "
+             "by a batch collector reach the pipeline and its encode loop on every path unless the batch is empty; R04.2 after every "
+             "consume site each path to return encodes exactly one reply, NeedMoreData consumes nothing; R04.3 discarded input is "
+             "followed by an error reply; R04.4 every reply-producing site reaches write_all or the is_empty edge before the next "
+             "read; R04.6 recogniser offsets equal the matched literal's length. Known findings: HEADER_LEN 14 vs 13 (x4) and the "
+             "below-threshold drop (x2, keyed by whether the recogniser is live). Does not decide reply contents.",
+        technique="CFG path search with exempt edges (consume=>reply pairing), dominance, constant/literal agreement from evaluated MIR constants",
+        ref="DESIGN.md §3 C04"),
 }
 
 PENDING_REASON = "check not built yet (build in progress; DESIGN.md §3 lists the planned structural clauses)"
